@@ -61,9 +61,13 @@ CLAIMED = {
         text=("(a) 2-3 real threads under a seeded baton scheduler share string templates, lazily compiled file "
               "templates, a template loader and module-loader-backed templates; every source line of chameleon's "
               "shared-state modules and of the generated render functions, every lock operation, file-system call "
-              "and in-template probe is a pre-emption point; PCT places 1-3 switches (half of them inside "
-              "shared-state functions). Every call must equal its run-alone result on a fresh, separately compiled "
-              "object graph, caller arguments must be unchanged, no deadlock, no residue afterwards. (b) call "
+              "and in-template probe is a pre-emption point. Three families: general (PCT over global steps or over "
+              "a task's n-th shared-state access line / file-system call / probe, or random), 'first lazily compiling "
+              "use' of one shared file template or loader name by three threads, and a compile race (yields at every "
+              "function entry of the compile-side modules). An extra observer thread performs an atomic render at "
+              "every access line once the object has been used. Every call must equal its run-alone result on a "
+              "fresh, separately compiled object graph, caller arguments (incl. search_path lists) must be "
+              "unchanged, no deadlock, no residue afterwards. (b) call "
               "sequences on reused vs fresh instances, and the same sequence in fresh interpreters under other "
               "PYTHONHASHSEED values (with allocator noise) and in reverse order must give identical output. "
               "Schedules are sampled: evidence, not proof."),
